@@ -189,6 +189,22 @@ func GenABCfg(rng *sim.Rand, tier string, prop string) ABCfg {
 	}
 	c.CloseMix = rng.Pick(5, 3, 2)
 	c.Stalls = rng.Chance(0.3)
+	if rng.Chance(0.03) {
+		// scaled windows that really close: receive buffers above 64 KB whose size is no multiple of the
+		// scale unit, transfers several times as long, readers that pause
+		odd := []int{66000, 70001, 100003, 131071, 655350}
+		c.RcvBufA, c.RcvBufB = odd[rng.Intn(len(odd))], odd[rng.Intn(len(odd))]
+		c.Stalls = true
+		if c.MTU < 1280 {
+			c.MTU = 1500
+		}
+		for i := range c.Bytes {
+			if rng.Chance(0.6) {
+				c.Bytes[i] = rng.Range(150000, 300000)
+			}
+		}
+		c.MaxSteps = 4 * c.MaxSteps
+	}
 	return c
 }
 
